@@ -34,5 +34,5 @@ PY
 }
 export -f one
 export BIN
-if [ $# -gt 0 ]; then ids="$@"; else ids=$(ls /verif/seeded); fi
-echo $ids | tr ' ' '\n' | xargs -P 5 -I{} bash -c 'one {}'
+if [ $# -gt 0 ]; then ids="$@"; else ids=$(ls /verif/seeded | grep '^C'); fi
+echo $ids | tr ' ' '\n' | xargs -P ${SWEEP_PAR:-5} -I{} bash -c 'one {}'
